@@ -163,7 +163,7 @@ class Machine:
         shape = shape or self._shape(rng)
         a = _rand_array(rng, palette, shape)
         return {"op": "new", "dst": self._dst(rng), "shape": list(shape), "values": a.ravel().tolist(),
-                "common": _pick_common(rng, a, palette)}
+                "common": _pick_common(rng, a, palette), "strided": rng.random() < 0.12}
 
     def gen_new3d(self, rng, palette):
         shape = (rng.choice((0, 1, 2, 3, 4)), rng.choice((1, 2, 3)), rng.choice((1, 2, 3)))
@@ -441,7 +441,11 @@ class Machine:
 
     def build(self, spec):
         a = _arr(spec["values"], spec["shape"])
-        return iindex_cls()(model.entries_of(a, spec["common"]), spec["common"], tuple(spec["shape"])), a
+        entries = model.entries_of(a, spec["common"])
+        if spec.get("strided"):
+            entries = model.strided(entries)
+            self.stats.count("probe_strided_rowid_arrays")
+        return iindex_cls()(entries, spec["common"], tuple(spec["shape"])), a
 
     def guard(self, cond):
         if not cond:
@@ -1174,10 +1178,12 @@ def storage_case_from_history(rng):
 
 
 RULE = ("seeded operation histories (quick: 2-12 steps, thorough: 3-24) over up to 4 live iindex slots built through the "
-        "constructor from a dense model (1-D/2-D, 0-8 rows, 0-3 columns, 1-5 distinct values incl. 255/256, "
-        "65535/65536 and negatives; 3-D only for sliced/slices1d; occasional 90-200-row sparse arrays for "
-        "from_array's row-scan strategy); operations: new, from_array, shift_common, append, update, filtered, "
-        "sliced, slices1d, reindexed, collapsed, copy, column_stack, union/intersection/difference_update, "
-        "observers, persist->restart->reload and persist->crash->reload through the simulated disk; every live "
-        "slot is judged after every step. distinct = distinct histories (full JSON); non-trivial = at least two "
-        "steps and two different operation kinds")
+        "constructor from a dense model (1-D/2-D, 0-8 rows mostly, sometimes 12-40, rarely 257/300 and 65537/70000 rows; "
+        "0-3 columns mostly, rarely 4-9 and 256/300; 1-5 distinct values incl. 255/256, 65535/65536 and negatives; "
+        "contiguous or strided row-id arrays; 3-D only for sliced/slices1d; occasional 90-200-row sparse arrays for "
+        "from_array's row-scan strategy); operations: new, from_array, shift_common, append (other slot, fresh operand "
+        "with equal/different/absent common, zero rows, or the receiver itself), update (incl. cells set to the common and "
+        "empty entries), filtered, sliced, slices1d, reindexed, collapsed, copy, column_stack, union/intersection/"
+        "difference_update (dict or index operand), observers, persist->restart->reload and persist->crash->reload "
+        "through the simulated disk; every live slot is judged after every step by all three oracle groups. distinct = "
+        "distinct histories (full JSON); non-trivial = at least two steps and two different operation kinds")
